@@ -238,6 +238,7 @@ class Sched(object):
         for t in self.threads:
             if not t.fin.acquire(timeout=10):
                 raise Divergence('a scheduler thread did not unwind')
+        self.aborting = True   # the execution is over: any late call from a finalizer raises Abort instead of waiting
         if self.diverged:
             raise Divergence('schedule prefix diverged: nondeterminism not owned')
         return not self.deadlock and not self.horizon
@@ -248,6 +249,15 @@ class Sched(object):
 
     def Event(self):
         return VEvent(self)
+
+    def RLock(self):
+        return VRLock(self)
+
+    def Condition(self, lock=None):
+        return VCondition(self, lock)
+
+    def Semaphore(self, value=1):
+        return VSemaphore(self, value)
 
     def Thread(self, group=None, target=None, name=None, args=(), kwargs=None, daemon=None):
         return VThreadShim(self, target, name, args, kwargs or {})
@@ -269,6 +279,129 @@ class VLock(object):
 
     def locked(self):
         return self.owner is not None
+
+    def __enter__(self):
+        self.acquire()
+        return self
+
+    def __exit__(self, *a):
+        self.release()
+
+
+class VRLock(object):
+    def __init__(self, s):
+        self.s = s
+        self.owner = None
+        self.count = 0
+
+    def acquire(self, blocking=True, timeout=-1):
+        me = self.s.cur
+        if self.owner is me:
+            self.count += 1
+            return True
+        self.s.block_until(lambda: self.owner is None, ('rlock.acquire',))
+        self.owner = self.s.cur
+        self.count = 1
+        return True
+
+    def release(self):
+        if self.owner is not self.s.cur:
+            raise RuntimeError('cannot release un-acquired lock')
+        self.count -= 1
+        if self.count == 0:
+            self.owner = None
+            self.s.point(('rlock.release',))
+
+    def _release_all(self):
+        n, self.count, self.owner = self.count, 0, None
+        return n
+
+    def _reacquire(self, n):
+        self.s.block_until(lambda: self.owner is None, ('rlock.reacquire',))
+        self.owner = self.s.cur
+        self.count = n
+
+    def __enter__(self):
+        self.acquire()
+        return self
+
+    def __exit__(self, *a):
+        self.release()
+
+
+class VCondition(object):
+    def __init__(self, s, lock=None):
+        self.s = s
+        self.lock = lock if lock is not None else VRLock(s)
+        self.waiters = []
+        self.acquire, self.release = self.lock.acquire, self.lock.release
+
+    def __enter__(self):
+        self.lock.acquire()
+        return self
+
+    def __exit__(self, *a):
+        self.lock.release()
+
+    def wait(self, timeout=None):
+        s = self.s
+        me = s.cur
+        token = [False]
+        self.waiters.append(token)
+        if isinstance(self.lock, VRLock):
+            n = self.lock._release_all()
+        else:
+            self.lock.owner = None
+            n = 1
+        if timeout is None:
+            s.block_until(lambda: token[0], ('condition.wait',))
+        else:
+            s.block_until(lambda: token[0] or s.timer_budget > 0, ('condition.wait-timed',), timed=True)
+            if not token[0]:
+                s.timer_budget -= 1
+                s.timer_fired = getattr(s, 'timer_fired', 0) + 1
+                if token in self.waiters:
+                    self.waiters.remove(token)
+        if isinstance(self.lock, VRLock):
+            self.lock._reacquire(n)
+        else:
+            s.block_until(lambda: self.lock.owner is None, ('lock.reacquire',))
+            self.lock.owner = s.cur
+        return token[0]
+
+    def wait_for(self, predicate, timeout=None):
+        r = predicate()
+        while not r:
+            if not self.wait(timeout) and timeout is not None:
+                return predicate()
+            r = predicate()
+        return r
+
+    def notify(self, n=1):
+        for token in self.waiters[:n]:
+            token[0] = True
+        del self.waiters[:n]
+        self.s.point(('condition.notify',))
+
+    def notify_all(self):
+        self.notify(len(self.waiters))
+
+    notifyAll = notify_all
+
+
+class VSemaphore(object):
+    def __init__(self, s, value=1):
+        self.s = s
+        self.value = value
+
+    def acquire(self, blocking=True, timeout=None):
+        self.s.block_until(lambda: self.value > 0, ('semaphore.acquire',))
+        self.value -= 1
+        return True
+
+    def release(self, n=1):
+        self.value += n
+        self.s.point(('semaphore.release',))
 
     def __enter__(self):
         self.acquire()
